@@ -12,12 +12,23 @@ from . import sym, extract
 from .sym import SVal, SInt, SBool, SOpt, SEnum, SSeq, Unsupported, _ie, _be, is_sym, merge
 from .spec import SSet, SpecFn, empty_set
 from .engine import (PyLong, STupleSeq, HRefTable, Engine, ReturnEx, BreakEx, ContinueEx, PathEnd, PyRaise, Opaque, HList, HSetList, HSymList,
-                     HIter, HMap, HFile, SObj, Closure, BoundMethod, Frame, Loop, Contract, call_by_names, conjuncts, MISSING, ConstFn, SUnion, HEnum, MethodOf, SuperProxy, SChars, HSink)
+                     HIter, HMap, HFile, SObj, Closure, BoundMethod, Frame, Loop, Contract, call_by_names, conjuncts, MISSING, ConstFn, SUnion, HEnum, MethodOf, SuperProxy, SChars, HSink, AnyExc)
 
 
 def exc_matches(exc_type, handler_type):
     if isinstance(handler_type, tuple):
         return any(exc_matches(exc_type, h) for h in handler_type)
+    if exc_type is AnyExc:
+        # an exception of unknown class (below Exception): caught for sure only by Exception / BaseException
+        if handler_type in (Exception, BaseException):
+            return True
+        try:
+            narrower = issubclass(handler_type, Exception)
+        except TypeError:
+            narrower = False
+        if narrower:
+            raise Unsupported("a handler for %s may or may not catch an exception of unknown class" % getattr(handler_type, "__name__", handler_type))
+        return False
     try:
         return issubclass(exc_type, handler_type)
     except TypeError:
@@ -1271,6 +1282,7 @@ class Interp(Engine):
             if c.requires is not None:
                 self.prove(call_by_names(c.requires, vals), "pre-of-%s" % c.qualname, getattr(node, "lineno", 0))
             self.assumed.add("external %s: assumed contract (result unmodelled)" % c.target)
+            self.external_may_raise(c, node)
             if getattr(c, "external_result", None) is not None:
                 return c.external_result(self, list(args), kwargs)
             return Opaque(c.qualname, c.result_pytype)
@@ -1295,6 +1307,13 @@ class Interp(Engine):
             self.effects.append(("write", "stderr" if fn.__self__ is sys.stderr else "stdout", getattr(node, "lineno", 0)))
             return None
         raise Unsupported("call of %s with symbolic arguments (line %d)" % (nm, getattr(node, "lineno", 0)))
+
+    def external_may_raise(self, c, node):
+        """an external callee whose contract says may_raise: fork on 'it raised some exception (unknown class)'"""
+        if getattr(c, "may_raise", False):
+            b = self.fresh_bool("raises_" + c.qualname.replace(".", "_"))
+            if self.decide(b.e):
+                raise PyRaise(AnyExc, "raised by external %s" % c.qualname, node)
 
     def bind_args(self, argspec, defaults, kwdefaults, args, kwargs, node, fname):
         names = [a.arg for a in argspec.posonlyargs + argspec.args]
@@ -1417,6 +1436,9 @@ class Interp(Engine):
             self.prove(call_by_names(c.requires, dict(vals, _engine=self)), "pre-of-%s" % c.qualname, ln)
         if c.external_args:
             self.assumed.add("external %s: assumed contract (result unmodelled)" % c.target)
+            self.external_may_raise(c, node)
+            if getattr(c, "external_result", None) is not None:
+                return c.external_result(self, list(args), kwargs)
             return Opaque(c.qualname, c.result_pytype)
         avail = dict(vals)
         for k, v in vals.items():
@@ -2291,6 +2313,16 @@ def _m_iter_unpack(self, args, kwargs, node, f):
             out.append(b)
         return tuple(out)
     return SSeq(z3.simplify(ne / size), get, kind="list")
+
+
+import traceback as _traceback
+
+
+@model(_traceback.print_exc)
+def _m_print_exc(self, args, kwargs, node, f):
+    self.effects = getattr(self, "effects", None) or []
+    self.effects.append(("write", "stderr", getattr(node, "lineno", 0)))
+    return None
 
 
 @model(open)
